@@ -1287,3 +1287,716 @@ class EmptyRun:
 
     def summary(self) -> str:
         return "; ".join(f"{o.kind} {o.detail} (L{o.node.lineno}{', unsure' if o.uncertain else ''})" for o in self.outcomes) or "no exit reached"
+
+
+# ---------------------------------------------------------------------------
+# abstract execution of a constructor on "the argument is ONE object of class K"
+
+
+class CannotFollow(Exception):
+    pass
+
+
+class _Arg:
+    """the argument object itself."""
+
+    def __deepcopy__(self, memo: dict) -> "_Arg":
+        return self
+
+    def __repr__(self) -> str:
+        return "<the argument>"
+
+
+class _Item(_Arg):
+    """something obtained by iterating the argument object."""
+
+    def __repr__(self) -> str:
+        return "<an item the argument yields>"
+
+
+class _Unk(_Arg):
+    def __repr__(self) -> str:
+        return "<unknown>"
+
+
+ARG, ITEM, UNKV = _Arg(), _Item(), _Unk()
+
+
+class Cont:
+    """a container (or iterator) created by the analysed code; ``elems``: what it may hold - "ARG" the argument object,
+    "ITEMS" items obtained by iterating the argument, "?" anything else."""
+
+    def __init__(self, elems: t.Iterable[str] = ()):
+        self.elems = set(elems)
+
+    def __repr__(self) -> str:
+        return f"<container of {sorted(self.elems) or 'nothing'}>"
+
+
+_ABC_NEEDS = {"Iterable": ("__iter__",), "Iterator": ("__iter__", "__next__"), "Sized": ("__len__",), "Container": ("__contains__",), "Callable": ("__call__",),
+              "Collection": ("__iter__", "__len__", "__contains__"), "Reversible": ("__iter__", "__reversed__"), "Hashable": ("__hash__",)}
+_NOMINAL = {"list", "tuple", "set", "frozenset", "dict", "str", "bytes", "bytearray", "int", "float", "bool", "Sequence", "MutableSequence", "Mapping", "MutableMapping",
+            "Set", "MutableSet", "Generator", "deque"}
+_COLLECT = {"list", "tuple", "set", "frozenset", "sorted", "reversed", "iter", "deque", "collections.deque"}
+
+
+class SingleObjectRun:
+    """Follow one function (a constructor) statement by statement with parameter ``pname`` bound to ONE object of class
+    ``klass`` - facts about that object come from the class table: `isinstance` against the classes of its MRO (abstract
+    base classes of collections.abc / typing by the methods they require), `hasattr` / `callable` by the names its
+    classes define, truthiness (true unless a class defines __bool__ / __len__), and whether iterating it works: a class
+    whose MRO defines __iter__ (or __getitem__) yields *its items* - not itself - and any other class raises TypeError,
+    which goes to the `except` clauses that cover it.  Containers built on the way record what they may hold (the
+    argument itself / items the argument yields / something else) through literals, list()/tuple()/..., comprehensions,
+    `+`, `.copy()`, append / extend / insert / add / update / `+=`, local names, conditional expressions and helpers of
+    the module (functions and generators) that are handed the value.  A test that is not decided by these facts forks
+    the run.  ``outcomes()``: [(what self.<attr> holds at the end | None, exception name | None)] over all runs."""
+
+    MAX_PATHS = 400
+
+    def __init__(self, flow: Flow, unit: Unit, pname: str, klass: t.Any, attr: str):
+        self.flow, self.unit, self.pname, self.klass, self.attr = flow, unit, pname, klass, attr
+        self.names: set[str] = set()
+        for k in flow.repo.mro(klass):
+            self.names |= set(getattr(k, "methods", {}) or {})
+            self.names |= set(getattr(k, "attrs", {}) or {})
+            self.names |= set(getattr(k, "method_names", ()) or ())
+        self.mro_fq = {getattr(k, "fq", None) for k in flow.repo.mro(klass)}
+        self.iterable = bool({"__iter__", "__getitem__"} & self.names)
+        self.paths = 0
+
+    # -- facts -------------------------------------------------------------
+    def _is_instance(self, te: ast.AST, u: Unit) -> bool | None:
+        if isinstance(te, ast.Tuple):
+            rs = [self._is_instance(x, u) for x in te.elts]
+            if any(r is True for r in rs):
+                return True
+            return None if any(r is None for r in rs) else False
+        d = dotted(te)
+        if d is None:
+            return None
+        fq = self.flow.repo.resolve(self.flow.module, d) or d
+        if fq.startswith("werkzeug."):
+            k = self.flow.repo.try_cls(fq)
+            return None if k is None else (k.fq in self.mro_fq)
+        last = fq.rsplit(".", 1)[-1]
+        head = fq.split(".", 1)[0]
+        if head in ("builtins", "collections", "typing", "t", "cabc") or fq == last:
+            if last == "object":
+                return True
+            if last in _ABC_NEEDS:
+                return all(n in self.names for n in _ABC_NEEDS[last])
+            if last in _NOMINAL:
+                return False
+        return None
+
+    def truth(self, v: t.Any) -> set[bool]:
+        if v is ARG:
+            return {True, False} if {"__bool__", "__len__"} & self.names else {True}
+        if v is None or v is False or v == 0 and isinstance(v, (int, float)) and not isinstance(v, bool):
+            return {False}
+        if isinstance(v, Cont):
+            if not v.elems:
+                return {False}
+            return {True} if "ARG" in v.elems else {True, False}  # items / unknown elements: zero or more of them
+        if isinstance(v, (bool, int, float, str, bytes)):
+            return {bool(v)}
+        return {True, False}
+
+    def iterate(self, v: t.Any) -> tuple[set[str], str | None]:
+        if v is ARG:
+            return ({"ITEMS"}, None) if self.iterable else (set(), "TypeError")
+        if isinstance(v, Cont):
+            return set(v.elems), None
+        if v is None or isinstance(v, (bool, int, float)):
+            return set(), "TypeError"
+        return {"?"}, None
+
+    @staticmethod
+    def tag(v: t.Any) -> str:
+        return "ARG" if v is ARG else "ITEMS" if v is ITEM else "?"
+
+    @staticmethod
+    def untag(tg: str) -> t.Any:
+        return ARG if tg == "ARG" else ITEM if tg == "ITEMS" else UNKV
+
+    # -- expressions: list of (value, exception name | None) ---------------------
+    def ev(self, e: ast.AST | None, st: dict, u: Unit) -> list[tuple[t.Any, str | None]]:
+        if e is None:
+            return [(None, None)]
+        if isinstance(e, ast.Constant):
+            return [(e.value, None)]
+        if isinstance(e, ast.Name):
+            if e.id in st["env"]:
+                return [(st["env"][e.id], None)]
+            fqn = self.flow.repo.resolve(self.flow.module, e.id) or ""
+            if fqn.startswith("werkzeug.") and self.flow.repo.try_cls(fqn) is not None:
+                return [(("class", fqn), None)]
+            return [(UNKV, None)]
+        if isinstance(e, ast.NamedExpr):
+            out = self.ev(e.value, st, u)
+            if len(out) == 1 and out[0][1] is None:
+                st["env"][e.target.id] = out[0][0]
+            else:
+                st["env"][e.target.id] = UNKV
+            return out
+        if isinstance(e, ast.Attribute):
+            if self.flow.self_ref(e.value, u) and u is self.unit:
+                return [(st["attrs"].get(mangle(u.clsname, e.attr), UNKV), None)]
+            if e.attr == "__class__" and isinstance(e.value, ast.Name) and st["env"].get(e.value.id) is ARG:
+                return [(("class", self.klass.fq), None)]
+            return [(UNKV, None)]
+        if isinstance(e, (ast.List, ast.Tuple, ast.Set)):
+            elems: set[str] = set()
+            for x in e.elts:
+                if isinstance(x, ast.Starred):
+                    for v, exc in self.ev(x.value, st, u):
+                        if exc:
+                            return [(None, exc)]
+                        got, exc2 = self.iterate(v)
+                        if exc2:
+                            return [(None, exc2)]
+                        elems |= got
+                else:
+                    for v, exc in self.ev(x, st, u):
+                        if exc:
+                            return [(None, exc)]
+                        elems.add(self.tag(v))
+            return [(Cont(elems), None)]
+        if isinstance(e, (ast.ListComp, ast.SetComp, ast.GeneratorExp)):
+            if len(e.generators) != 1 or e.generators[0].is_async:
+                return [(Cont({"?"}), None)]
+            g = e.generators[0]
+            res: list[tuple[t.Any, str | None]] = []
+            for v, exc in self.ev(g.iter, st, u):
+                if exc:
+                    res.append((None, exc))
+                    continue
+                got, exc2 = self.iterate(v)
+                if exc2:
+                    res.append((None, exc2))
+                    continue
+                elems = set()
+                for tg in got:
+                    st2 = {"env": dict(st["env"]), "attrs": st["attrs"]}
+                    if isinstance(g.target, ast.Name):
+                        st2["env"][g.target.id] = self.untag(tg)
+                    else:
+                        for nm in [x.id for x in ast.walk(g.target) if isinstance(x, ast.Name)]:
+                            st2["env"][nm] = UNKV
+                    keep = {True}
+                    for c in g.ifs:
+                        ts = self.test(c, st2, u)
+                        keep = {a and b for a in keep for b in ts}
+                    if True in keep:
+                        for ev_, _x in self.ev(e.elt, st2, u):
+                            elems.add(self.tag(ev_))
+                res.append((Cont(elems), None))
+            return res
+        if isinstance(e, ast.IfExp):
+            out = []
+            ts = self.test(e.test, st, u)
+            if True in ts:
+                out += self.ev(e.body, st, u)
+            if False in ts:
+                out += self.ev(e.orelse, st, u)
+            return out
+        if isinstance(e, ast.BoolOp):
+            outs: list[tuple[t.Any, str | None]] = []
+            cur = self.ev(e.values[0], st, u)
+            for nxt in e.values[1:]:
+                new: list[tuple[t.Any, str | None]] = []
+                for v, exc in cur:
+                    if exc:
+                        outs.append((None, exc))
+                        continue
+                    ts = self.truth(v)
+                    stop = False if isinstance(e.op, ast.And) else True
+                    if stop in ts:
+                        outs.append((v, None))
+                    if (not stop) in ts:
+                        new += self.ev(nxt, st, u)
+                cur = new
+            return outs + cur
+        if isinstance(e, ast.UnaryOp) and isinstance(e.op, ast.Not):
+            return [(not b, None) for b in sorted(self.test(e.operand, st, u))]
+        if isinstance(e, ast.Compare):
+            return [(b, None) for b in sorted(self.test(e, st, u))]
+        if isinstance(e, ast.BinOp) and isinstance(e.op, (ast.Add, ast.BitOr)):
+            out = []
+            for a, ea in self.ev(e.left, st, u):
+                for b, eb in self.ev(e.right, st, u):
+                    if ea or eb:
+                        out.append((None, ea or eb))
+                    elif isinstance(a, Cont) and isinstance(b, Cont):
+                        out.append((Cont(a.elems | b.elems), None))
+                    elif a is ARG or b is ARG or a is None or b is None:
+                        out.append((None, "TypeError"))
+                    else:
+                        out.append((UNKV, None))
+            return out
+        if isinstance(e, ast.Subscript):
+            out = []
+            for v, exc in self.ev(e.value, st, u):
+                if exc:
+                    out.append((None, exc))
+                elif isinstance(v, Cont) and isinstance(e.slice, ast.Slice):
+                    out.append((Cont(v.elems), None))
+                elif isinstance(v, Cont):
+                    out += [(self.untag(tg), None) for tg in sorted(v.elems)] or [(None, "IndexError")]
+                else:
+                    out.append((UNKV, None))
+            return out
+        if isinstance(e, ast.Call):
+            return self.call(e, st, u)
+        if isinstance(e, ast.Starred):
+            return self.ev(e.value, st, u)
+        if isinstance(e, (ast.JoinedStr, ast.Dict, ast.Lambda, ast.DictComp)):
+            return [(UNKV, None)]
+        if isinstance(e, (ast.Await, ast.Yield, ast.YieldFrom)):
+            raise CannotFollow(f"`{norm(e)}`")
+        return [(UNKV, None)]
+
+    def test(self, e: ast.AST, st: dict, u: Unit) -> set[bool]:
+        out = self._test(e, st, u)
+        if len(out) > 1 and any(isinstance(x, ast.Name) and st["env"].get(x.id) is ARG for x in ast.walk(e)):
+            st.setdefault("undecided", []).append(norm(e))  # the facts about the argument's class do not decide this test
+        return out
+
+    def _test(self, e: ast.AST, st: dict, u: Unit) -> set[bool]:
+        if isinstance(e, ast.UnaryOp) and isinstance(e.op, ast.Not):
+            return {not b for b in self.test(e.operand, st, u)}
+        if isinstance(e, ast.BoolOp):
+            acc = {True} if isinstance(e.op, ast.And) else {False}
+            for x in e.values:
+                ts = self.test(x, st, u)
+                if isinstance(e.op, ast.And):
+                    acc = ({False} if False in acc else set()) | ({False} & ts if True in acc else set()) | ({True} if True in acc and True in ts else set())
+                else:
+                    acc = ({True} if True in acc else set()) | ({True} & ts if False in acc else set()) | ({False} if False in acc and False in ts else set())
+            return acc
+        if isinstance(e, ast.Compare) and len(e.ops) == 1:
+            op = e.ops[0]
+            ls, rs = self.ev(e.left, st, u), self.ev(e.comparators[0], st, u)
+            out: set[bool] = set()
+            for a, ea in ls:
+                for b, eb in rs:
+                    if ea or eb:
+                        raise CannotFollow(f"`{norm(e)}` raises {ea or eb}")
+                    if isinstance(op, (ast.Is, ast.IsNot, ast.Eq, ast.NotEq)):
+                        same: bool | None
+                        concrete = lambda v: v is None or isinstance(v, (bool, int, str, bytes, float))  # noqa: E731
+                        iscls = lambda v: isinstance(v, tuple) and len(v) == 2 and v[0] == "class"  # noqa: E731
+                        if iscls(a) and iscls(b):
+                            same = a == b
+                        elif a is ARG and b is ARG:
+                            same = True
+                        elif (a is ARG and (concrete(b) or isinstance(b, Cont))) or (b is ARG and (concrete(a) or isinstance(a, Cont))):
+                            same = False
+                        elif concrete(a) and concrete(b):
+                            same = (a is b) if isinstance(op, (ast.Is, ast.IsNot)) and (a is None or b is None) else (a == b)
+                        elif isinstance(a, Cont) and b is None or isinstance(b, Cont) and a is None:
+                            same = False
+                        else:
+                            same = None
+                        if same is None:
+                            out |= {True, False}
+                        else:
+                            out.add(same if isinstance(op, (ast.Is, ast.Eq)) else not same)
+                    else:
+                        out |= {True, False}
+            return out
+        out = set()
+        for v, exc in self.ev(e, st, u):
+            if exc:
+                raise CannotFollow(f"the condition `{norm(e)}` raises {exc}")
+            out |= self.truth(v)
+        return out
+
+    def call(self, e: ast.Call, st: dict, u: Unit) -> list[tuple[t.Any, str | None]]:
+        f = e.func
+        d = dotted(f)
+        shadowed = isinstance(f, ast.Name) and f.id in st["env"]
+        if any(k.arg is None for k in e.keywords):
+            return [(UNKV, None)]
+
+        def args1() -> list[tuple[t.Any, str | None]]:
+            return self.ev(e.args[0], st, u) if e.args and not isinstance(e.args[0], ast.Starred) else [(UNKV, None)]
+
+        fq = None if shadowed or d is None else (self.flow.repo.resolve(self.flow.module, d) or d)
+        last = fq.rsplit(".", 1)[-1] if fq else None
+        plain = fq is not None and (fq == last or fq.startswith(("builtins.", "collections.", "typing.", "itertools.", "copy.")))
+        if plain and (last in _COLLECT) and len(e.args) <= 1 and not e.keywords:
+            if not e.args:
+                return [(Cont(), None)]
+            out = []
+            for v, exc in args1():
+                if exc:
+                    out.append((None, exc))
+                    continue
+                got, exc2 = self.iterate(v)
+                out.append((None, exc2) if exc2 else (Cont(got), None))
+            return out
+        if plain and last in ("sorted",) and e.args:
+            out = []
+            for v, exc in args1():
+                got, exc2 = self.iterate(v) if not exc else (set(), exc)
+                out.append((None, exc2) if exc2 else (Cont(got), None))
+            return out
+        if plain and last == "filter" and len(e.args) == 2:
+            out = []
+            for v, exc in self.ev(e.args[1], st, u):
+                got, exc2 = self.iterate(v) if not exc else (set(), exc)
+                out.append((None, exc2) if exc2 else (Cont(got), None))
+            return out
+        if plain and last in ("map", "zip", "enumerate"):
+            for a in e.args[(1 if last == "map" else 0):]:
+                for v, exc in self.ev(a, st, u):
+                    _got, exc2 = self.iterate(v) if not exc else (set(), exc)
+                    if exc2:
+                        return [(None, exc2)]
+            return [(Cont({"?"}), None)]
+        if plain and last == "chain" and not e.keywords:
+            elems: set[str] = set()
+            for a in e.args:
+                if isinstance(a, ast.Starred):
+                    return [(Cont({"?"}), None)]
+                for v, exc in self.ev(a, st, u):
+                    got, exc2 = self.iterate(v) if not exc else (set(), exc)
+                    if exc2:
+                        return [(None, exc2)]
+                    elems |= got
+            return [(Cont(elems), None)]
+        if plain and last == "type" and len(e.args) == 1 and not e.keywords:
+            return [((("class", self.klass.fq) if v is ARG else UNKV), exc) for v, exc in args1()]
+        if plain and last == "issubclass" and len(e.args) == 2 and not e.keywords:
+            out = []
+            for v, exc in args1():
+                r = self._is_instance(e.args[1], u) if v == ("class", self.klass.fq) else None
+                out += [(True, None), (False, None)] if r is None else [(r, None)]
+            return out
+        if plain and last == "cast" and len(e.args) == 2:
+            return self.ev(e.args[1], st, u)
+        if plain and last == "isinstance" and len(e.args) == 2:
+            out = []
+            for v, exc in args1():
+                if v is ARG:
+                    r = self._is_instance(e.args[1], u)
+                    out += [(True, None), (False, None)] if r is None else [(r, None)]
+                elif v is None or isinstance(v, Cont):
+                    dd = dotted(e.args[1])
+                    r2 = None
+                    if dd is not None and not isinstance(e.args[1], ast.Tuple):
+                        fq2 = self.flow.repo.resolve(self.flow.module, dd) or dd
+                        if fq2.startswith("werkzeug.") and self.flow.repo.try_cls(fq2) is not None:
+                            r2 = False  # None / a builtin container is no instance of a class of the package
+                    out += [(True, None), (False, None)] if r2 is None else [(r2, None)]
+                else:
+                    out += [(True, None), (False, None)]
+            return out
+        if plain and last == "hasattr" and len(e.args) == 2:
+            nm = const_str(e.args[1])
+            out = []
+            for v, exc in args1():
+                if v is ARG and nm is not None and nm in self.names:
+                    out.append((True, None))
+                elif v is ARG and nm is not None and not ({"__getattr__", "__getattribute__"} & self.names):
+                    out.append((False, None))
+                else:
+                    out += [(True, None), (False, None)]  # an instance __getattr__ may answer for names the classes do not define
+            return out
+        if plain and last == "callable" and len(e.args) == 1:
+            return [("__call__" in self.names, None) if v is ARG else (UNKV, None) for v, _ in args1()]
+        if plain and last == "bool" and len(e.args) == 1:
+            out = []
+            for v, exc in args1():
+                out += [(b, None) for b in sorted(self.truth(v))]
+            return out
+        if plain and last == "len" and len(e.args) == 1:
+            out = []
+            for v, exc in args1():
+                if v is ARG and "__len__" not in self.names:
+                    out.append((None, "TypeError"))
+                elif isinstance(v, Cont) and not v.elems:
+                    out.append((0, None))
+                else:
+                    out.append((UNKV, None))
+            return out
+        if d in ("object.__setattr__", "setattr", "super().__setattr__") and len(e.args) == 3 and self.flow.self_ref(e.args[0], u) and u is self.unit:
+            nm = const_str(e.args[1])
+            vals = self.ev(e.args[2], st, u)
+            if nm is None or len(vals) != 1:
+                raise CannotFollow(f"`{norm(e)}`")
+            if vals[0][1]:
+                return [(None, vals[0][1])]
+            st["attrs"][nm] = vals[0][0]
+            return [(None, None)]
+        if isinstance(f, ast.Attribute):
+            recvs = self.ev(f.value, st, u)
+            if len(recvs) == 1 and isinstance(recvs[0][0], Cont) and recvs[0][1] is None:
+                c = recvs[0][0]
+                if f.attr in ("append", "add", "insert") and e.args:
+                    vals = self.ev(e.args[-1], st, u)
+                    for v, exc in vals:
+                        if exc:
+                            return [(None, exc)]
+                        c.elems.add(self.tag(v))
+                    return [(None, None)]
+                if f.attr in ("extend", "update", "extendleft") and len(e.args) == 1:
+                    for v, exc in self.ev(e.args[0], st, u):
+                        got, exc2 = self.iterate(v) if not exc else (set(), exc)
+                        if exc2:
+                            return [(None, exc2)]
+                        c.elems |= got
+                    return [(None, None)]
+                if f.attr in ("copy", "__copy__") and not e.args:
+                    return [(Cont(c.elems), None)]
+                if f.attr in ("clear",):
+                    c.elems.clear()
+                    return [(None, None)]
+                if f.attr in ("__iter__",):
+                    return [(Cont(c.elems), None)]
+                return [(UNKV, None)]
+            if len(recvs) == 1 and recvs[0][0] is ARG and f.attr == "__iter__" and not e.args:
+                got, exc2 = self.iterate(ARG)
+                return [(None, "AttributeError")] if exc2 else [(Cont(got), None)]
+        callees = self.flow.callees(e, u)
+        if len(callees) == 1:
+            return self.run_callee(callees[0][0], callees[0][1], e, st, u)
+        # code the analysis does not see: if it is handed the argument (or a container made from it) its result is unknown
+        return [(UNKV, None)]
+
+    def run_callee(self, cu: Unit, off: int, call: ast.Call, st: dict, u: Unit, depth: int = 0) -> list[tuple[t.Any, str | None]]:
+        if len(st.get("stack", ())) > 3 or any(x is cu for x in st.get("stack", ())):
+            return [(UNKV, None)]
+        a = cu.fi.node.args
+        names = [x.arg for x in a.posonlyargs + a.args + a.kwonlyargs]
+        env: dict[str, t.Any] = {}
+        for nm in names:
+            how, arg = self.flow.site_arg(cu, nm, call, off)
+            if how == "arg" and arg is not None:
+                vals = self.ev(arg, st, u)
+                if len(vals) != 1:
+                    raise CannotFollow(f"argument `{norm(arg)}` of `{norm(call)}` has several possible values")
+                if vals[0][1]:
+                    return [(None, vals[0][1])]
+                env[nm] = vals[0][0]
+            elif how == "default" and arg is not None:
+                vals = self.ev(arg, {"env": {}, "attrs": {}}, cu)
+                env[nm] = vals[0][0] if len(vals) == 1 and not vals[0][1] else UNKV
+            else:
+                env[nm] = UNKV
+        gen = any(isinstance(n, (ast.Yield, ast.YieldFrom)) for n in cu.walk())
+        st0 = {"env": env, "attrs": st["attrs"] if off and cu.cls is self.unit.cls else {}, "stack": tuple(st.get("stack", ())) + (u,), "yields": Cont() if gen else None}
+        out: list[tuple[t.Any, str | None]] = []
+        for st1, how2, val in self.block(cu.fi.node.body, st0, cu):
+            if how2 == "raise":
+                out.append((None, val))
+            elif gen:
+                out.append((st1["yields"], None))
+            else:
+                out.append((val if how2 == "return" else None, None))
+        return out
+
+    # -- statements: list of (state, "next" | "return" | "raise" | "break" | "continue", value) ------------------
+    def fork(self, st: dict) -> dict:
+        import copy
+
+        self.paths += 1
+        if self.paths > self.MAX_PATHS:
+            raise CannotFollow("too many paths")
+        keep = st.get("stack", ())
+        st2 = copy.deepcopy({k: v for k, v in st.items() if k != "stack"})
+        st2["stack"] = keep
+        return st2
+
+    def block(self, stmts: list[ast.stmt], st: dict, u: Unit) -> list[tuple[dict, str, t.Any]]:
+        states: list[dict] = [st]
+        done: list[tuple[dict, str, t.Any]] = []
+        for s in stmts:
+            nxt: list[dict] = []
+            for cur in states:
+                for st2, how, val in self.stmt(s, cur, u):
+                    if how == "next":
+                        nxt.append(st2)
+                    else:
+                        done.append((st2, how, val))
+            states = nxt
+            if not states:
+                break
+        return done + [(x, "next", None) for x in states]
+
+    def _each(self, e: ast.AST | None, st: dict, u: Unit) -> list[tuple[dict, t.Any, str | None]]:
+        """evaluate e once per possible outcome, each on its own copy of the state."""
+        probe = self.fork(st)
+        outs = self.ev(e, probe, u)
+        if len(outs) == 1:
+            return [(probe, outs[0][0], outs[0][1])]
+        res = []
+        for i in range(len(outs)):
+            sti = self.fork(st)
+            oi = self.ev(e, sti, u)
+            if len(oi) != len(outs):
+                raise CannotFollow(f"`{norm(e)}` evaluates differently on a second pass")  # type: ignore[arg-type]
+            res.append((sti, oi[i][0], oi[i][1]))
+        return res
+
+    def _store(self, tg: ast.AST, v: t.Any, st: dict, u: Unit) -> None:
+        if isinstance(tg, ast.Name):
+            st["env"][tg.id] = v
+        elif isinstance(tg, ast.Attribute) and self.flow.self_ref(tg.value, u) and u is self.unit:
+            st["attrs"][mangle(u.clsname, tg.attr)] = v
+        elif isinstance(tg, (ast.Tuple, ast.List)):
+            for x in tg.elts:
+                self._store(x.value if isinstance(x, ast.Starred) else x, UNKV, st, u)
+        elif isinstance(tg, ast.Subscript):
+            base = self.ev(tg.value, st, u)
+            if len(base) == 1 and isinstance(base[0][0], Cont):
+                base[0][0].elems.add(self.tag(v))
+        # other attribute stores: no effect on what is tracked
+
+    def stmt(self, s: ast.stmt, st: dict, u: Unit) -> list[tuple[dict, str, t.Any]]:
+        if isinstance(s, (ast.Pass, ast.Import, ast.ImportFrom, ast.Global, ast.Nonlocal, ast.FunctionDef, ast.AsyncFunctionDef, ast.ClassDef, ast.Assert)):
+            return [(st, "next", None)]
+        if isinstance(s, ast.Expr):
+            if isinstance(s.value, ast.Yield):
+                res = []
+                for st2, v, exc in self._each(s.value.value, st, u):
+                    if exc:
+                        res.append((st2, "raise", exc))
+                    else:
+                        st2["yields"].elems.add(self.tag(v))
+                        res.append((st2, "next", None))
+                return res
+            if isinstance(s.value, ast.YieldFrom):
+                res = []
+                for st2, v, exc in self._each(s.value.value, st, u):
+                    got, exc2 = self.iterate(v) if not exc else (set(), exc)
+                    if exc2:
+                        res.append((st2, "raise", exc2))
+                    else:
+                        st2["yields"].elems |= got
+                        res.append((st2, "next", None))
+                return res
+            return [(st2, "raise", exc) if exc else (st2, "next", None) for st2, _v, exc in self._each(s.value, st, u)]
+        if isinstance(s, (ast.Assign, ast.AnnAssign)):
+            if s.value is None:
+                return [(st, "next", None)]
+            res = []
+            for st2, v, exc in self._each(s.value, st, u):
+                if exc:
+                    res.append((st2, "raise", exc))
+                    continue
+                for tg in s.targets if isinstance(s, ast.Assign) else [s.target]:
+                    self._store(tg, v, st2, u)
+                res.append((st2, "next", None))
+            return res
+        if isinstance(s, ast.AugAssign):
+            res = []
+            for st2, v, exc in self._each(s.value, st, u):
+                if exc:
+                    res.append((st2, "raise", exc))
+                    continue
+                load = ast.copy_location(ast.Name(id=s.target.id, ctx=ast.Load()), s.target) if isinstance(s.target, ast.Name) else s.target
+                cur = self.ev(load, st2, u)
+                c = cur[0][0] if len(cur) == 1 else UNKV
+                if isinstance(c, Cont) and isinstance(s.op, (ast.Add, ast.BitOr)):
+                    got, exc2 = self.iterate(v)
+                    if exc2:
+                        res.append((st2, "raise", exc2))
+                        continue
+                    c.elems |= got
+                else:
+                    self._store(s.target, UNKV, st2, u)
+                res.append((st2, "next", None))
+            return res
+        if isinstance(s, ast.Return):
+            return [(st2, "raise", exc) if exc else (st2, "return", v) for st2, v, exc in self._each(s.value, st, u)]
+        if isinstance(s, ast.Raise):
+            name = raised_class(u, s, self.flow) if s.exc is not None else None
+            return [(st, "raise", (name or "?").lstrip("?") or "?")]
+        if isinstance(s, (ast.Break, ast.Continue)):
+            return [(st, "break" if isinstance(s, ast.Break) else "continue", None)]
+        if isinstance(s, ast.If):
+            res = []
+            probe = self.fork(st)
+            ts = self.test(s.test, probe, u)
+            for b in sorted(ts, reverse=True):
+                stb = probe if len(ts) == 1 else self.fork(st)
+                if len(ts) > 1:
+                    self.test(s.test, stb, u)  # walrus bindings
+                res += self.block(s.body if b else s.orelse, stb, u)
+            return res
+        if isinstance(s, ast.For):
+            res = []
+            for st2, v, exc in self._each(s.iter, st, u):
+                got, exc2 = self.iterate(v) if not exc else (set(), exc)
+                if exc2:
+                    res.append((st2, "raise", exc2))
+                    continue
+                states = [st2]
+                for tg in sorted(got):  # one pass of the body per kind of element
+                    nxt = []
+                    for cur in states:
+                        self._store(s.target, self.untag(tg), cur, u)
+                        for st3, how, val in self.block(s.body, cur, u):
+                            if how in ("next", "continue"):
+                                nxt.append(st3)
+                            elif how == "break":
+                                res.append((st3, "next", None))
+                            else:
+                                res.append((st3, how, val))
+                    states = nxt
+                for cur in states:
+                    res += self.block(s.orelse, cur, u) if s.orelse else [(cur, "next", None)]
+            return res
+        if isinstance(s, ast.Try):
+            res = []
+            after: list[tuple[dict, str, t.Any]] = []
+            for st2, how, val in self.block(s.body, st, u):
+                if how == "raise":
+                    h = next((h for h in s.handlers if handler_catches(h, None if val == "?" else val)), None)
+                    if h is None and val == "?" and s.handlers:
+                        raise CannotFollow("an exception of unknown class meets `except` clauses")
+                    if h is None:
+                        after.append((st2, how, val))
+                        continue
+                    if h.name:
+                        st2["env"][h.name] = UNKV
+                    for st3, how3, val3 in self.block(h.body, st2, u):
+                        after.append((st3, "raise", val) if how3 == "raise" and val3 is None else (st3, how3, val3))
+                elif how == "next" and s.orelse:
+                    after += self.block(s.orelse, st2, u)
+                else:
+                    after.append((st2, how, val))
+            if not s.finalbody:
+                return after
+            for st2, how, val in after:
+                for st3, how3, val3 in self.block(s.finalbody, st2, u):
+                    res.append((st3, how, val) if how3 == "next" else (st3, how3, val3))
+            return res
+        if isinstance(s, ast.With) and all(it.optional_vars is None for it in s.items) and all(
+                (dotted(it.context_expr.func) if isinstance(it.context_expr, ast.Call) else "") in ("contextlib.suppress", "suppress") for it in s.items):
+            names = [x for it in s.items for x in it.context_expr.args]  # type: ignore[attr-defined]
+            fake = ast.ExceptHandler(type=ast.Tuple(elts=names, ctx=ast.Load()), name=None, body=[])
+            res = []
+            for st2, how, val in self.block(s.body, st, u):
+                res.append((st2, "next", None) if how == "raise" and val != "?" and handler_catches(fake, val) else (st2, how, val))
+            return res
+        raise CannotFollow(f"`{norm(s)[:60]}`")
+
+    def outcomes(self) -> list[tuple[t.Any, str | None]]:
+        a = self.unit.fi.node.args
+        env: dict[str, t.Any] = {x.arg: UNKV for x in a.posonlyargs + a.args + a.kwonlyargs}
+        env[self.pname] = ARG
+        sn = self.unit.self_name()
+        if sn:
+            env.pop(sn, None)
+        st = {"env": env, "attrs": {}, "stack": (), "yields": None}
+        out = []
+        self.undecided: list[str] = []
+        for st2, how, val in self.block(self.unit.fi.node.body, st, self.unit):
+            out.append((None, val) if how == "raise" else (st2["attrs"].get(self.attr, "unset"), None))
+            if how != "raise":
+                self.undecided += [x for x in st2.get("undecided", []) if x not in self.undecided]
+        return out
